@@ -68,6 +68,19 @@ func (u *Unit) buildQuery(o *Obligation) string {
 	if len(u.errGlobals) > 1 {
 		b.WriteString("(assert (distinct " + strings.Join(u.errGlobals, " ") + "))\n")
 	}
+	for _, d := range u.defs {
+		hidden := false
+		if u.fc != nil {
+			for _, h := range u.fc.Hide {
+				if h[0] == d.pred && strings.Contains(o.Name, h[1]) {
+					hidden = true
+				}
+			}
+		}
+		if !hidden {
+			b.WriteString("(assert " + d.formula + ")\n")
+		}
+	}
 	for _, a := range u.asserts[:o.NAsserts] {
 		b.WriteString("(assert " + a + ")\n")
 	}
@@ -243,7 +256,11 @@ func dischargeAll(units []*Unit, timeoutS int, seed int, workDir string) {
 					o.Output = fmt.Sprintf("verification condition too large (%d bytes): split this function", len(q))
 					continue
 				}
-				res := solveOne(q, timeoutS, seed, workDir, fmt.Sprintf("q%04d", j.n))
+				tmo := timeoutS
+				if o.ExpectSat && tmo > 3 {
+					tmo = 3 // cover goals only guard against vacuity; an undecided one is reported as such
+				}
+				res := solveOne(q, tmo, seed, workDir, fmt.Sprintf("q%04d", j.n))
 				o.Solver = res.solver
 				o.TimeS = res.timeS
 				o.Output = res.out
